@@ -21,23 +21,29 @@ TRUSTED = ["Coq 8.16.1 kernel + vm_compute (primitive floats: bit-exact IEEE-754
            "(Complex<Rat> vs Qc exact; Complex<f64> vs primitive floats, bitwise on the assignment-vs-binary cases)"]
 ASSUMPTIONS = ["Rust operator dispatch / by-value operand semantics as modelled; f64 + - * / sqrt are IEEE-754 correctly rounded (as Coq's primitive floats are)",
                "the sampled cases are where model and code were compared; the theorems are about the model"]
-UNPROVED = ["the 'few ulps' accuracy of the f64 instantiation: a normwise bound is proved for the Flocq rounding model of cmul only if "
-            "Props/C13.v lists cmul_rounding_bound; otherwise tied bitwise to the float model and searched (normwise <= 8*2^-53 "
-            "against the exact rational result)",
-            "commutativity of IEEE addition (the one hypothesis of mul_assign = mul) is checked bitwise on every float pair, not proved"]
+UNPROVED = ["the 'few ulps' accuracy of the f64 instantiation is proved for the float instance of the MODEL (Coq primitive binary64 through "
+            "Flocq: cmul_rounding_bound, normwise 2.83*2^-53, and componentwise 2^-53 for + and -; no overflow / subnormal intermediate) "
+            "and only for multiplication, addition and subtraction: for division, abs_sqr, abs and the real-scalar forms it is tied bitwise "
+            "to the float model and searched (normwise <= 8*2^-53 against the exact rational result), not proved",
+            "that the Rust f64 operations are the IEEE-754 operations of Coq's primitive floats is an assumption, supported by the bitwise "
+            "agreement of every float case of the tie"]
 
 MANIFEST = dict(
-    text=("Theorems over an abstract commutative ring / field F about the Gallina model of src/complex/mod.rs (every operator impl its own "
-          "function, compound assignments as the statement sequences of the source): Complex F with these operators satisfies ring_theory; "
-          "conj / abs_sqr laws; the mixed complex/real forms are the operations with (r,0); (z/w)*w = z whenever |w|^2 <> 0 and division "
-          "panics exactly when |w|^2 = 0; every compound-assignment form equals its binary form (syntactically for all but mul_assign, "
-          "which needs commutativity of + only); zero and one are identities; the lexicographic ordering is a strict total order whenever "
-          "the component order is (exactly one of <, =, >; transitive; Equal iff eq).  The model is run against the implementation on every "
-          "operator variant (Complex<Rat> vs Qc exactly, Complex<f64> vs primitive floats, assignment-vs-binary bitwise), and independent "
-          "Fraction formulae search for a failing input (exact equality on rationals, normwise 8*2^-53 on f64 over 1e-100..1e100)."),
-    note=("The f64 'few ulps' half is tied and searched, not proved for the code's float arithmetic (a rounding-model bound for cmul is an "
-          "optional extra theorem); IEEE commutativity of + is an explicit hypothesis of the mul_assign theorem, checked bitwise by the tie."),
-    technique="Coq proof over an abstract ring/field + model/implementation differential execution (vm_compute vs Rust executor)",
+    text=("Theorems about the Gallina model of src/complex/mod.rs (every operator impl its own function, compound assignments as the statement "
+          "sequences of the source). Over an abstract commutative ring / field F: Complex F with these operators satisfies ring_theory (and "
+          "field_theory when F is formally real: Q, R); conj / abs_sqr laws; the mixed complex/real forms, real scalar on either side, are the "
+          "operations with (r,0); (z/w)*w = z whenever |w|^2 <> 0, the quotient is unique, and division panics exactly when |w|^2 = 0; zero and "
+          "one are identities; every compound-assignment form equals its binary form (syntactically for all but mul_assign, which needs "
+          "commutativity of + only -- proved for IEEE binary64 from the FloatAxioms specification, so all eight forms agree bit for bit in the "
+          "float instance); the lexicographic ordering is a strict total order whenever the component order is (exactly one of <, =, >; "
+          "transitive; partial_cmp = Equal iff eq; lt/le/gt/ge consistent). For the float instance itself a normwise rounding bound of the "
+          "product (2.83 * 2^-53 |z||w|, no overflow/underflow) through Flocq. The model is run against the implementation on every operator "
+          "variant (Complex<Rat> vs Qc exactly on a full 4^4 grid plus random operands, Complex<f64> vs primitive floats), and independent "
+          "Fraction formulae search for a failing input (exact equality on rationals; normwise 8*2^-53 on f64 over 1e-100..1e100; assignment "
+          "form bitwise equal to binary form on every f64 operand pair including non-finite ones; trichotomy/transitivity on triples)."),
+    note=("Accuracy of f64 division / abs / real-scalar forms is tied and searched, not proved; the theorems are about the model, which is tied "
+          "to the Rust code by differential execution on the sampled cases (all float cases bit-identical)."),
+    technique="Coq proof over an abstract ring/field + Flocq rounding bound + model/implementation differential execution (vm_compute vs Rust executor)",
     design="7 (C13)")
 
 U = Fraction(1, 2 ** 53)
@@ -402,12 +408,21 @@ def items_values(elt, items):
         else: out.append(it)
     return out
 
-def close_enough(got, exp, acc):
+WORST = {}      # op -> largest observed normwise error of an f64 result, in units of 2^-53 (measured, reported in the evidence)
+
+def close_enough(got, exp, acc, what=None):
     """normwise: |got - exp| <= acc * |exp| for a tuple of components (exact rational comparison of squares)"""
     if any(g is None for g in got): return False
     err2 = sum((g - e) ** 2 for g, e in zip(got, exp))
     mag2 = sum(e ** 2 for e in exp)
+    if what is not None and mag2 != 0:
+        r = math.sqrt(float(err2 / mag2)) * 2.0 ** 53
+        if r > WORST.get(what, 0.0): WORST[what] = r
     return err2 <= acc * acc * mag2
+
+def extra_coverage():
+    return {"f64_worst_normwise_error_in_units_of_2^-53": {k: round(v, 3) for k, v in sorted(WORST.items())},
+            "f64_accuracy_demanded_in_units_of_2^-53": 8}
 
 def oracle(case, items):
     m = case.meta
@@ -482,7 +497,7 @@ def oracle(case, items):
                 return "%s %s: result %d is %s, the field operation gives %s" % (kind, ops, idx, [str(x) for x in got], [str(x) for x in e])
         else:
             exactk = k in ("neg", "conj", "clone", "copy", "zero", "one")
-            if not close_enough(got, e, 0 if exactk else ACC):
+            if not close_enough(got, e, 0 if exactk else ACC, what=k.split('.')[-1]):
                 return "%s %s: result %d is %s, the exact value is %s (normwise error above 8*2^-53)" % (
                     kind, ops, idx, [None if x is None else float(x) for x in got], [float(x) for x in e])
     if k.startswith("pair."):
